@@ -247,6 +247,48 @@ func VH_C12_runExprAborted() {
 	vhReach("end")
 }
 
+// an evaluation that was single-stepping (started with DebugExpr, or switched to stepping by a breakpoint) and is
+// aborted by a panic must not leave the debugger mode on for the next, plain evaluation
+func VH_C12_debugModeAfterAbort() {
+	c := vhComp()
+	run := &Run{IrGlobals: c.IrGlobals}
+	top := &Env{Run: run}
+	ir := &Interp{Comp: c, env: top}
+	viaDebugExpr := vhBool("first evaluation started with DebugExpr")
+	breakpoint := vhBool("a breakpoint switches to single-stepping")
+	depth := 1 + vhPick("debug depth", 3)
+	panics := vhBool("the first evaluation panics")
+	var zero int
+	first := exprFun(vhTypeOf(zero), func(env *Env) int {
+		if breakpoint {
+			env.Run.applyDebugOp(DebugOp{Depth: depth})
+		}
+		if panics {
+			panic("abort")
+		}
+		return 1
+	})
+	rec := vhRunRecover(func() {
+		if viaDebugExpr {
+			ir.DebugExpr(first)
+		} else {
+			ir.RunExpr(first)
+		}
+	})
+	vhAssert((rec != nil) == panics, "the panic aborts the evaluation")
+	var sawDebugFlag, sawDebugSignal bool
+	var sawDepth int
+	second := exprFun(vhTypeOf(zero), func(env *Env) int {
+		r := env.Run
+		sawDebugFlag, sawDebugSignal, sawDepth = r.ExecFlags.IsDebug(), r.Signals.Debug != base.SigNone, r.DebugDepth
+		return 2
+	})
+	vs, _ := ir.RunExpr(second)
+	vhAssert(len(vs) == 1 && vs[0].Int() == 2, "the next evaluation returns its value")
+	vhAssert(!sawDebugFlag && !sawDebugSignal && sawDepth == 0, "the next plain evaluation does not run in debugger mode")
+	vhReach("end")
+}
+
 // pushDefer / popDefer restore the bookkeeping for every prior state
 func VH_C12_pushPopDefer() {
 	run := vhNewRun()
